@@ -44,7 +44,7 @@ type c16streamCfg struct {
 	Calls    int   `json:"calls"`    // calls per runner
 	CmdProcs int   `json:"cmdprocs"` // goroutines sending commands
 	// Mutex makes the runners execute their calls inside an ECAL mutex block and the commands
-	// mostly lockstate: reproduces the known finding C16 lockstate-live-owners, never generated
+	// mostly lockstate: reproduces the known finding lockstate-live-owner-map (one such stream per run)
 	Mutex bool `json:"mutex,omitempty"`
 }
 
@@ -113,6 +113,26 @@ func c16slug(s string) string {
 	return strings.Trim(sb.String(), "-")
 }
 
+// c16isLockstateOwnerRace: the known finding and nothing else — the runtime detected a map read /
+// iteration concurrent with a write, and the goroutine that died was encoding (encoding/json map
+// encoder) the result of a lockstate command (frame sendLockstate).
+func c16isLockstateOwnerRace(text string, m []string) bool {
+	if m[1] != "fatal error" || (m[2] != "concurrent map iteration and map write" && m[2] != "concurrent map read and map write") {
+		return false
+	}
+	i := strings.Index(text, m[0])
+	rest := text[i+len(m[0]):]
+	j := strings.Index(rest, "[running]:")
+	if j < 0 {
+		return false
+	}
+	stack := rest[j:]
+	if k := strings.Index(stack, "\n\n"); k >= 0 {
+		stack = stack[:k]
+	}
+	return strings.Contains(stack, "encoding/json.mapEncoder") && strings.Contains(stack, "(*c16streamState).sendLockstate")
+}
+
 // c16streamRun runs one stream in a child process and merges what it reports.
 func c16streamRun(c *Ctx, cfg c16streamCfg, n int) { c16streamRunC(c, cfg, n, false) }
 
@@ -148,6 +168,10 @@ func c16streamRunC(c *Ctx, cfg c16streamCfg, n int, confirming bool) {
 		if m := c16fatalRe.FindStringSubmatch(text); m != nil {
 			key = "fatal:" + c16slug(m[2])
 			what = "the process died while commands were handled with threads running: " + m[1] + ": " + m[2]
+			if cfg.Mutex && c16isLockstateOwnerRace(text, m) {
+				key = "lockstate-live-owner-map"
+				what = "a lockstate result (the live mutex owner map) was JSON-encoded while a thread passed through an ECAL mutex block: " + m[1] + ": " + m[2]
+			}
 		}
 		c.Violate(key, what, desc)
 		c.Count(fmt.Sprintf("stream|%+v", cfg), true, desc)
@@ -201,6 +225,13 @@ func c16streams(c *Ctx) {
 		c16streamRun(c, cfg, i)
 	}
 	c.Extra["streams_with_running_threads"] = n
+	// one stream with runners inside ECAL mutex blocks and mostly lockstate commands: reproduces
+	// the listed finding lockstate-live-owner-map when the race is hit (reported under that key
+	// only for exactly that death, see c16isLockstateOwnerRace); nothing is reported if it is not hit
+	if !c.Enough() {
+		c16streamRun(c, c16streamCfg{Seed: c.Seed*1000 + 999, Runners: 3, Calls: 30000, CmdProcs: 2, Mutex: true}, n)
+		c.Extra["streams_with_mutex_blocks"] = 1
+	}
 }
 
 // ---- child side -------------------------------------------------------------------------------
@@ -277,6 +308,34 @@ func (st *c16streamState) send(line string) (interface{}, bool) {
 		return nil, false
 	}
 	return r.Val, true
+}
+
+// sendLockstate sends "lockstate" and encodes the result inside THIS function: a fatal error of
+// the runtime while the live mutex owner map is encoded shows this frame (known finding
+// lockstate-live-owner-map; the parent classifies the child's death by it).
+//
+//go:noinline
+func (st *c16streamState) sendLockstate() bool {
+	if atomic.LoadInt32(&st.failed) != 0 {
+		return false
+	}
+	r := guarded(c16streamBound, func() (interface{}, error) { return st.dbg.HandleInput("lockstate") })
+	atomic.AddInt64(&st.sent, 1)
+	switch {
+	case r.TimedOut:
+		st.violate("debugger-stops-answering", fmt.Sprintf("\"lockstate\" did not return within %v while other threads were running", c16streamBound))
+		return false
+	case r.Panicked:
+		st.violate(c16panicKey(r.PanicMsg), "\"lockstate\" panicked while other threads were running: "+r.PanicMsg)
+		return false
+	case r.Err != nil:
+		return true
+	}
+	if _, err := json.Marshal(r.Val); err != nil {
+		st.violate("not-json-encodable", fmt.Sprintf("the result of \"lockstate\" cannot be encoded as JSON: %v", err))
+		return false
+	}
+	return true
 }
 
 // suspended reports whether thread tid is suspended (read from a describe result).
@@ -385,8 +444,8 @@ func runC16StreamChild(c *Ctx) error {
 			for n := 0; !runnersDone() && n < 200000; n++ {
 				ok := true
 				r := rng.Intn(100)
-				if cfg.Mutex && r < 90 {
-					r = 99
+				if cfg.Mutex && rng.Intn(2) == 0 {
+					r = 99 // every second command is lockstate
 				}
 				switch {
 				case r < 40:
@@ -416,7 +475,7 @@ func runC16StreamChild(c *Ctx) error {
 				case r < 95:
 					_, ok = st.send(fmt.Sprintf("rmbreak other:%d", rng.Intn(40)))
 				default:
-					_, ok = st.send("lockstate")
+					ok = st.sendLockstate()
 				}
 				if !ok {
 					return
